@@ -53,6 +53,18 @@ def make(src, dst, N, T, M):
                    meta={"src": src, "dst": dst, "N": N, "T": T, "M": M})
 
 
+def make_rvalue(src, dst, N, T, M):
+    body = """
+  using S = %s;
+  using D = %s;
+  D::owning_data_t o(std::move(*static_cast<S::owning_data_t *>(a0)));
+  out[0] = o.get_backend().get_configuration()[0];
+  out[1] = reinterpret_cast<std::size_t>(o.get_backend().m_ptr.get());
+""" % (layout_type(src, N, T, M), layout_type(dst, N, T, M))
+    return Harness("convrv_%s_to_%s_%d_%s%d" % (src, dst, N, T, M), [("void *", 'src')], body, out=("std::size_t", 2),
+                   meta={"src": src, "dst": dst, "N": N, "T": T, "M": M, "rvalue": True})
+
+
 def combos(tier):
     out = []
     Ns = (1, 2, 3) if tier == "quick" else (1, 2, 3, 4)
